@@ -145,8 +145,10 @@ type Fixture struct {
 	TS       *server.Teamserver
 	L        *FListener
 	Base     string
+	TLSBase  string // the teamserver's own TLS listener (used under the race detector, see DialTLS)
 	baseline int
 	Fresh    bool // first use of this teamserver
+	uses     int
 	clients  []*Client
 }
 
@@ -190,7 +192,7 @@ func newFixture(users []User) (*Fixture, error) {
 	}
 
 	go http.Serve(l, ts.Server.Engine)
-	f := &Fixture{TS: ts, L: l, Base: fmt.Sprintf("ws://127.0.0.1:%d", l.Port()), Fresh: true}
+	f := &Fixture{TS: ts, L: l, Base: fmt.Sprintf("ws://127.0.0.1:%d", l.Port()), TLSBase: fmt.Sprintf("wss://127.0.0.1:%d", tlsPort), Fresh: true}
 	f.baseline = runtime.NumGoroutine()
 	if ts.DB != firstDB {
 		// closing a sql.DB ends its connectionOpener goroutine (asynchronously): the
@@ -254,6 +256,10 @@ func Acquire(users []User, svcPassword string) (*Fixture, error) {
 // so callers tag their events with Nonce() and ignore everything else.
 func AcquireShared(users []User) (*Fixture, error) {
 	Init()
+	if cur != nil && cur.uses >= 40 {
+		// the retained history (replayed to every newcomer) grows with every case
+		cur.drop()
+	}
 	if cur == nil {
 		f, err := newFixture(users)
 		if err != nil {
@@ -264,6 +270,7 @@ func AcquireShared(users []User) (*Fixture, error) {
 		cur.Fresh = false
 	}
 	cur.clients = nil
+	cur.uses++
 	return cur, nil
 }
 
@@ -352,7 +359,7 @@ func (f *Fixture) Release(dirty bool) {
 	// not unlocking after a failed write) parks the handlers on each other for good
 	for _, c := range f.clients {
 		c.Abort()
-		if dirty || c.Peer.ClosedByServer() {
+		if dirty || (c.Peer != nil && c.Peer.ClosedByServer()) {
 			continue
 		}
 		deadline := time.Now().Add(time.Second)
